@@ -917,6 +917,8 @@ class Interp:
         if kind in ("append", "reparent", "remove", "clear", "replace", "clearparent") and self.U.has_o2m and not self.U.is_bidir:
             for sc in self.scope_children:
                 sc.update(o.idx for o in objs if o is not None and self.U.childish(o.kind))
+                # delete-marked members that the loaded collection still holds receive the same remove events
+                sc.update(g.idx for g in self.model.objs if g.ghost_of is not None and any(g.ghost_of is o for o in objs))
         for o in objs:
             if o is not None:
                 self.flush_mappers.add(self.U.root(o.kind))
